@@ -1,4 +1,4 @@
-(* P19b stage 3 - incremental builds, part 1: vocabulary.  Restrictions of this development: no database is attached, the rule table is fixed, no earlier build was cancelled. *)
+(* P19b stage 3 - incremental builds, part 1: vocabulary.  Restrictions of this development: the rule table is fixed, no earlier build was cancelled. *)
 From LLB Require Import Engine.Rules Engine.Spec Engine.SpecInv1 Engine.Impl Engine.ImplProofs Engine.ImplProofsSticky Engine.ImplProofsInv
   Engine.ImplProofsInv2 Engine.ImplVal1.
 From Coq Require Import Arith Lia.
@@ -84,7 +84,6 @@ Record task_ok2 (s : istate) (t : key) (ti : tinfo) : Prop := {
 
 (* tasks and values *)
 Record BT (root : key) (s : istate) : Prop := {
-  b_udb : is_usedb s = false;
   b_ep : is_epoch s <> 0;
   b_cur : forall k, curk s k -> stored s k = cvK k;
   b_req : forall rq, Oreq2 s rq -> rq_wf rules env F rank s rq /\
@@ -122,7 +121,6 @@ Definition BInv (root : key) (x : option key) (s : istate) : Prop := BT root s /
 (* the invariant of the states between builds: nothing depends on env *)
 Record HInv (s : istate) : Prop := {
   h_q : quiescent s;
-  h_udb : is_usedb s = false;
   h_nc : forall k, ri_cancelled (rinfo_of s k) = false;
   h_dn : forall k, kind_of s k <> KDoesNotNeedToRun;
   h_bnd : forall k, cAt s k <= bAt s k /\ bAt s k <= is_epoch s;
